@@ -60,7 +60,7 @@ PROPS['C05'] = dict(
     level='model_checking',
     mc=[xixi_mc('MC_Batch', ['MapSemantics', 'QuiescentLiveEqualsRecovered', 'RecoveredOK', 'NeverFails', 'FileSizeRespected'],
                 Features='{"batch", "delete", "restart"}', MaxMerges=0,
-                quick=dict(MaxOps=6, MaxBatch=4), thorough=dict(MaxOps=7, MaxBatch=5))],
+                quick=dict(MaxOps=5, MaxBatch=3), thorough=dict(MaxOps=6, MaxBatch=4))],
     traces=[dict(profile='batch', spec='EngineTrace',
                  enforce=['bres', 'res', 'open', 'vals', 'keys', 'scan', 'index'],
                  quick_seeds=1, thorough_seeds=2)],
@@ -162,11 +162,11 @@ PROPS['C04'] = dict(
     level='model_checking',
     mc=[xixi_mc('MC_BatchCrash', ['RecoveredOK', 'NeverFails', 'MapSemantics', 'SyncBatchDurable', 'FileSizeRespected'],
                 Features='{"batch", "syncbatch", "delete", "crash", "powerloss", "restart"}', MaxMerges=0,
-                quick=dict(MaxOps=5, MaxBatch=3, MaxFaults=1, MaxRestarts=1, Keys='{1, 2}', Vals='{1, 3}', BigVals='{3}'),
+                quick=dict(MaxOps=4, MaxBatch=3, MaxFaults=1, MaxRestarts=1, Keys='{1, 2}', Vals='{1, 3}', BigVals='{3}'),
                 thorough=dict(MaxOps=6, MaxBatch=4, MaxFaults=2, MaxRestarts=1, Keys='{1, 2}', Vals='{1, 3}', BigVals='{3}')),
         xixi_mc('MC_BatchMerge', ['RecoveredOK', 'NeverFails', 'MapSemantics', 'QuiescentLiveEqualsRecovered'],
                 Features='{"batch", "delete", "merge", "restart", "crash"}',
-                quick=dict(MaxOps=4, MaxBatch=3, MaxFaults=1, MaxRestarts=2, MaxMerges=1, Vals='{1, 2}', BigVals='{}'),
+                quick=dict(MaxOps=4, MaxBatch=3, MaxFaults=1, MaxRestarts=1, MaxMerges=1, Vals='{1}', BigVals='{}'),
                 thorough=dict(MaxOps=5, MaxBatch=3, MaxFaults=1, MaxRestarts=2, MaxMerges=1, Vals='{1, 2}', BigVals='{}'))],
     traces=[dict(profile='batchcrash', spec='CrashTrace', enforce=['recok', 'c13batch'], consts=CRASH_CONSTS, sig=crash_sig,
                  quick_seeds=1, thorough_seeds=2),
